@@ -99,6 +99,41 @@ pub fn run(tier: &str) -> i32 {
     let mut all: Vec<&Tok> = rpt.iter().collect();
     all.extend(cpt.iter());
 
+    // (a4) long parse histories on ONE thread: more distinct token texts than any small memo can hold, then every one
+    // of them again (same order, reverse order): what a text parses to does not depend on what was parsed before it on
+    // the thread. One thread for 1,820 texts in quick (more than a memo of 1,024 entries holds), two in thorough; they
+    // run beside the other families and are joined at the end.
+    let history_threads: Vec<std::thread::JoinHandle<(Vec<(usize, String, Value)>, usize)>> = {
+        let pool: Vec<Tok> = all.iter().cloned().step_by(if thorough { 1 } else { 2 }).cloned().collect();
+        let halves: Vec<Vec<Tok>> = if thorough { vec![pool.iter().cloned().step_by(2).collect(), pool.iter().cloned().skip(1).step_by(2).collect()] } else { vec![pool] };
+        halves
+            .into_iter()
+            .map(|toks| {
+                std::thread::spawn(move || {
+                    let n = toks.len();
+                    let mut order: Vec<usize> = (0..n).collect();
+                    order.extend(0..n);
+                    order.extend((0..n).rev());
+                    let mut bad: Vec<(usize, String, Value)> = vec![];
+                    for (step, &i) in order.iter().enumerate() {
+                        let t = &toks[i];
+                        let suf = [":0.5", "", ":0.25"][i % 3];
+                        let text = format!("{}{}", t.text, suf);
+                        let exp = expected_list(&[(t, suf)]);
+                        let r = if step % 2 == 0 { check_token_text(&text, &exp) } else { check_range_text(&text, &exp) };
+                        if let Some(b) = r {
+                            bad.push((step, text, b));
+                            if bad.len() >= 3 {
+                                break;
+                            }
+                        }
+                    }
+                    (bad, order.len())
+                })
+            })
+            .collect()
+    };
+
     // (a) single tokens x weight literals, as token and as one-token range
     let outs = par_map(all.len(), |i| {
         let t = all[i];
@@ -562,6 +597,17 @@ pub fn run(tier: &str) -> i32 {
     rep.bound("token lists: ordered pairs (all in thorough), triples over a 40-token sub-alphabet, not all finite lists");
     rep.bound("weights: nine literals in [0,1]; the weight grammar itself is C10's");
     rep.assume("M-notation (vlib/src/notation.rs) is the standard meaning of the notation; the f32 nearest a literal is taken from Rust's correctly rounded f32::from_str");
+    {
+        let mut steps = 0u64;
+        for h in history_threads {
+            let (bad, n) = h.join().unwrap_or((vec![(0, "thread".into(), json!({"problem": "the history thread died"}))], 0));
+            steps += n as u64;
+            for (step, text, b) in bad {
+                rep.violation(Violation { key: format!("text={} as call {} of a long parse history on one thread", text, step + 1), sub: "parse-histories".into(), case: json!({"text": text, "history_step": step}), expected: json!("the combos the text denotes, whatever was parsed before on the thread"), observed: b });
+            }
+        }
+        rep.sub("parse-histories", "one thread (thorough: two) parsing 1,820 distinct token texts one after the other, then all of them again in the same order and in reverse order (alternately as token and as range): every result equals the text's own meaning", steps, steps, false, json!({}));
+    }
     rep.finish()
 }
 
